@@ -51,7 +51,7 @@ def _free_value(rng, depth=0):
     if r < 0.76:
         # a quoted string that itself spans lines (a description, a multi-line label): what follows it starts further down
         return {"$raw": rng.choice(['"first line\nsecond line"', "'a\n\nb'", '"ends with a break\n"', '"x\r\ny"',
-                                    '"one\ntwo\nthree"'])}
+                                    '"one\ntwo\nthree"', '"page\x0cbreak"', '"ls\u2028sep"', '"nel\x85x"', '"vt\x0bx\x1ey"'])}
     if r < 0.92 and depth < 3:
         return [_free_value(rng, depth + 1) for _ in range(rng.choice([0, 1, 2, 3, 4]))]
     if depth == 0:
